@@ -33,4 +33,17 @@ var props = map[string]*propCfg{
 			"runs that crash are left to C01; C02 compares runs that complete",
 		},
 	},
+	"C10": {
+		ID: "C10", Level: "exploration", QuickSecs: 90, ThoroughSecs: 1500,
+		Lanes: []lane{{Variant: "", Share: 5}, {Variant: "defective", Share: 4}, {Variant: "faults", Share: 2}, {Variant: "cache", Share: 2}, {Variant: "", Race: true, Share: 2}, {Variant: "defective", Race: true, Share: 1}},
+		Rule: "one evaluation = one generated world of 1-3 virtual repositories (siblings sharing a name prefix, a nested repository, files outside any repository; per-repository actionlint.yaml with different runner labels, config variables and paths-ignore entries; local actions and reusable workflows, some of them arguments themselves; corpus workflows) linted once as a multi-file run under a seeded goroutine schedule, seeded map orders and NumCPU in {1,2,3,4,8,16}, plus one canonical solo run per argument as reference, plus the attribution run; lane 'defective' adds defective/missing callees, lane 'faults' persistent read errors, lane 'cache' runs 2-4 simulated client tasks against the two caches and checks the recorded history with porcupine; race lanes run the same worlds on the -race build with the invisible baton; distinct = distinct (world hash, interleaving signature = hash of the ordered kernel event trace); non-trivial = at some scheduling point >= 2 tasks were runnable",
+		Assumptions: []string{
+			"reference for isolation: the same file linted alone by a fresh Linter on the canonical schedule (same disk, cwd and spelling); compared as ordered lists",
+			"reference for attribution: nearest ancestor directory with a .github/workflows directory and a .git entry, checked through the public Projects API for every argument order",
+			"defective lane: callee-defect messages (recognised by mentioning the callee: 'reusable workflow', 'action metadata', 'in \"...\" action', ...) must appear exactly once per run and repository; everything else as in isolation",
+			"cache lane: a non-linearizable history is reported only for defective callees (observable as a defect reported twice or never); on well-formed callees it is counted as a probe; porcupine Unknown is inconclusive and never reported",
+			"fingerprints follow built-in kinds and types declared in package actionlint; foreign opaque types (regexp, colour printers, writers) are represented by their type name",
+			"race lane: GOMAXPROCS=4; sync.Pool-mediated happens-before edges inside fmt can hide a race (under-reporting) but never invent one; reports whose stacks contain no actionlint frame are ignored",
+		},
+	},
 }
